@@ -1,5 +1,5 @@
-(* C08 (S) -- CPython's binding rule (language reference 4.2.1 "Binding of names", symtable.c),
-   written over the same tree, independently of the activity model:
+(* C08 (S) -- CPython's binding rule (language reference 4.2.1 "Binding of names", symtable.c) and
+   evaluation rule, written over the same tree, independently of the activity model:
 
    the names *bound in a block* are: assignment / augmented assignment / annotated assignment / for /
    with-as / walrus targets and del targets (a Name in Store or Del context), import aliases, def and
@@ -9,10 +9,14 @@
    enclosing block.
    A name is LOCAL to a function iff it is a parameter or bound in its block and not declared global
    or nonlocal there.
+   Executing a statement reads the names it loads, writes the names it stores (def / class / import
+   bind their name), deletes its del targets; an augmented assignment to a name also reads it; the
+   bodies of lambdas, nested defs and classes run in frames of their own.
 
-   Q is only used for the *exemptions*: with quirk q_leak the names of the parameters of directly
-   nested defs / lambdas join the comprehension targets and except-clause names as names the
-   comparison does not speak about (known finding activity-nested-params-leak). *)
+   Q is only used for the *exemptions* (names the comparison does not speak about) that the known
+   finding activity-nested-params-leak adds to the two exemptions of the property:
+     q_leak     the parameters of the defs / lambdas written directly in the block
+     q_annmiss  the reads made by parameter annotations are not claimed for the def statement *)
 From Coq Require Import List Arith Bool.
 Import ListNotations.
 Require Import MV.Scope.Ast MV.Scope.Activity.
@@ -21,8 +25,6 @@ Inductive fact : Set :=
 | FBind (n : name) | FUse (n : name) | FDeclG (n : name) | FDeclN (n : name)
 | FExempt (n : name)    (* except-clause name; with q_leak: parameter of a directly nested def / lambda *)
 | FComp (n : name)      (* comprehension target *)
-(* what evaluating the node in the current frame may do to a variable (CPython's evaluation rule:
-   bodies of lambdas, nested defs and classes run in frames of their own) *)
 | FRead (n : name) | FWrite (n : name) | FDel (n : name).
 
 Definition fact_eqb (a b : fact) : bool :=
@@ -53,10 +55,14 @@ Definition params (args : node) : list name :=
   | _ => []
   end.
 
+Definition is_read (x : fact) : bool := match x with FRead _ => true | _ => false end.
+
 Section Rule.
 Variable Q : quirks.
 
 Definition leak (args : node) : list fact := if q_leak Q then map FExempt (params args) else [].
+Definition annot_facts (l : list fact) : list fact :=
+  if q_annmiss Q then filter (fun x => negb (is_read x)) l else l.
 
 (* the facts a node contributes to the block it is written in *)
 Fixpoint facts (t : node) {struct t} : list fact :=
@@ -66,8 +72,23 @@ Fixpoint facts (t : node) {struct t} : list fact :=
     | KName n Load => [FUse n; FRead n]
     | KName n Store => [FBind n; FWrite n]
     | KName n Del => [FBind n; FDel n]
+    | KConst _ | KArgs | KArg _ | KCompFor => []
     | KAug =>
-        (match ch with NCons (N (KName n Store) _) _ => [FRead n] | _ => [] end) ++ facts_list ch
+        match ch with
+        | NCons tg (NCons v NNil) =>
+            (match tg with N (KName n Store) _ => [FRead n] | _ => [] end) ++ facts tg ++ facts v
+        | _ => []
+        end
+    | KAnn =>
+        match ch with
+        | NCons tg (NCons v (NCons a NNil)) => facts tg ++ facts v ++ facts a
+        | _ => []
+        end
+    | KFor =>
+        match ch with
+        | NCons tg (NCons it r) => facts tg ++ facts it ++ facts_list r
+        | _ => []
+        end
     | KAlias n => FBind n :: FWrite n :: facts_list ch
     | KHandler (Some n) => FBind n :: FExempt n :: facts_list ch
     | KGlobal ns => map FDeclG ns
@@ -88,10 +109,9 @@ Fixpoint facts (t : node) {struct t} : list fact :=
         | NCons decos (NCons bases (NCons body NNil)) => FBind n :: FWrite n :: facts decos ++ facts bases
         | _ => []
         end
-    | KCompFor =>
+    | KComp =>
         match ch with
-        | NCons tgt (NCons it (NCons ifs NNil)) =>
-            map FComp (simple_names (targets tgt)) ++ facts it ++ facts ifs
+        | NCons (N _ gens) (NCons elts NNil) => facts_gens gens ++ facts elts
         | _ => []
         end
     | _ => facts_list ch
@@ -105,8 +125,21 @@ with facts_list (ts : nodes) {struct ts} : list fact :=
 (* default values and annotations of a nested def / lambda are evaluated in the enclosing block *)
 with facts_args (t : node) {struct t} : list fact :=
   match t with
-  | N _ (NCons dflt (NCons decls NNil)) => facts dflt ++ facts decls
+  | N _ (NCons dflt (NCons (N _ decls) NNil)) => facts dflt ++ annot_facts (facts_decls decls)
   | _ => []
+  end
+with facts_decls (ts : nodes) {struct ts} : list fact :=
+  match ts with
+  | NNil => []
+  | NCons (N (KArg _) ch) r => facts_list ch ++ facts_decls r
+  | NCons _ r => facts_decls r
+  end
+with facts_gens (ts : nodes) {struct ts} : list fact :=
+  match ts with
+  | NNil => []
+  | NCons (N _ (NCons tgt (NCons it (NCons ifs NNil)))) r =>
+      map FComp (simple_names (targets tgt)) ++ facts it ++ facts ifs ++ facts_gens r
+  | NCons _ r => facts_gens r
   end.
 
 Definition mem_name (n : name) (l : list name) : bool := existsb (Nat.eqb n) l.
@@ -118,6 +151,82 @@ Definition declared_nonlocal (body : node) (n : name) : bool := memf (FDeclN n) 
 Definition is_local (args body : node) (n : name) : bool :=
   (is_param args n || memf (FBind n) (facts body))
   && negb (declared_global body n) && negb (declared_nonlocal body n).
-Definition exempt (body : node) (n : name) : bool := memf (FExempt n) (facts body) || memf (FComp n) (facts body).
+Definition exemptf (n : name) (F : list fact) : bool := memf (FExempt n) F || memf (FComp n) F.
+Definition exempt (body : node) (n : name) : bool := exemptf n (facts body).
 
 End Rule.
+
+(* ---------------------------------------------------------------------------------------------
+   well-formedness of exported trees (decidable; the exporter guarantees it, the harness re-checks it
+   in Coq on every exported tree):
+     cpure  what may stand inside a comprehension or a parameter annotation: no name in Store / Del
+            context (i.e. no walrus -- known finding activity-walrus-in-comprehension), no statement
+     wf     fixed-arity nodes have their arity, `arguments` nodes their shape, comprehension parts and
+            parameter annotations are cpure *)
+Fixpoint cpure (t : node) {struct t} : bool :=
+  match t with
+  | N k ch =>
+    match k with
+    | KGen | KConst _ | KAttr _ _ | KSub _ => cpure_list ch
+    | KName _ Load => true
+    | KLambda =>
+        match ch with
+        | NCons (N _ (NCons dflt (NCons (N KGen decls) NNil))) (NCons body NNil) =>
+            cpure dflt && decls_ok decls && cpure body
+        | _ => false
+        end
+    | KComp =>
+        match ch with
+        | NCons (N _ gens) (NCons elts NNil) => gens_ok gens && cpure elts
+        | _ => false
+        end
+    | _ => false
+    end
+  end
+with cpure_list (ts : nodes) {struct ts} : bool :=
+  match ts with NNil => true | NCons t r => cpure t && cpure_list r end
+with decls_ok (ts : nodes) {struct ts} : bool :=
+  match ts with
+  | NNil => true
+  | NCons (N (KArg _) ch) r => cpure_list ch && decls_ok r
+  | NCons _ _ => false
+  end
+with gens_ok (ts : nodes) {struct ts} : bool :=
+  match ts with
+  | NNil => true
+  | NCons (N _ (NCons tgt (NCons it (NCons ifs NNil)))) r => cpure it && cpure ifs && gens_ok r
+  | NCons _ _ => false
+  end.
+
+Fixpoint wf (t : node) {struct t} : bool :=
+  match t with
+  | N k ch =>
+    match k with
+    | KArgs | KArg _ | KCompFor => false
+    | KAug => match ch with NCons tg (NCons v NNil) => wf tg && wf v | _ => false end
+    | KAnn => match ch with NCons tg (NCons v (NCons a NNil)) => wf tg && wf v && wf a | _ => false end
+    | KFor => match ch with NCons tg (NCons it r) => wf tg && wf it && wf_list r | _ => false end
+    | KIf | KWhile => match ch with NCons tst r => wf tst && wf_list r | _ => false end
+    | KDef _ =>
+        match ch with
+        | NCons decos (NCons rets (NCons (N _ (NCons dflt (NCons (N KGen decls) NNil))) (NCons body NNil))) =>
+            wf decos && wf rets && wf dflt && decls_ok decls && wf body
+        | _ => false
+        end
+    | KLambda =>
+        match ch with
+        | NCons (N _ (NCons dflt (NCons (N KGen decls) NNil))) (NCons body NNil) =>
+            wf dflt && decls_ok decls && wf body
+        | _ => false
+        end
+    | KClass _ =>
+        match ch with
+        | NCons decos (NCons bases (NCons body NNil)) => wf decos && wf bases && wf body
+        | _ => false
+        end
+    | KComp => cpure t
+    | _ => wf_list ch
+    end
+  end
+with wf_list (ts : nodes) {struct ts} : bool :=
+  match ts with NNil => true | NCons t r => wf t && wf_list r end.
